@@ -2,13 +2,19 @@
 """Collects mutlane results (target/lane-*.log) into seeded/RESULTS.md and per-mutant meta 'detected' fields."""
 import re, glob, json, os
 rows = {}
-for f in sorted(glob.glob('/verif/target/lane-*.log'), key=os.path.getmtime):
+def _num(f):
+    m = re.search(r'(\d+)\.log$', f)
+    return int(m.group(1)) if m else 0
+# batches are numbered in launch order
+for f in sorted(glob.glob('/verif/target/lane-*.log'), key=_num):
     txt = open(f, errors='replace').read()
     # split per mutlane summary line, remember preceding lines
     chunks = re.split(r'(mutlane: patch=\S+ check=\S+ tier=\S+ exit=\d+)', txt)
     for i in range(1, len(chunks), 2):
         m = re.match(r'mutlane: patch=(\S+) check=(\S+) tier=(\S+) exit=(\d+)', chunks[i])
         patch, check, tier, rc = m.groups()
+        if '/verif/seeded/' not in patch:
+            continue  # trial runs of repair patches, not seeded changes
         body = chunks[i-1]
         sigs = sorted(set(re.findall(r'violation (\S+?):? ', body)))
         rows.setdefault((patch, check), []).append((tier, int(rc), sigs))
